@@ -154,6 +154,8 @@ def _judge(prop: str, v: dict, root, edits: Dict[str, str]) -> dict:
         try:
             rep = chk.run_prop(prop, root=tmp)
             rep.verify_floors(strict=not any(not o.ok for o in rep.obs))
+            if rep.deferred and not any(not o.ok for o in rep.obs):
+                raise AnalysisError("; ".join(rep.deferred))
         except AnalysisError as e:
             if v["kind"] == "break" and v.get("accept_error"):
                 return dict(name=v["name"], status="ok", fired=["ANALYSIS-ERROR"], detail=str(e)[:120])
